@@ -24,7 +24,7 @@ from collections import Counter
 import numpy as np
 
 from vlib import datasets as D
-from vlib import env, gen
+from vlib import cli, env, gen
 from vlib.report import digest
 
 ID = "C06"
@@ -79,7 +79,9 @@ FLAG_NAMES = {D.FLAG_UNMAP: "unmapped", D.FLAG_SECONDARY: "secondary", D.FLAG_QC
 
 def plan(tier, seed):
     k = 1 if tier == "quick" else 10
-    return [{"name": "s%02d" % i, "shard": i, "datasets": 30 * k, "timeout": 1500 if tier == "quick" else 7200} for i in range(16)]
+    specs = [{"name": "s%02d" % i, "shard": i, "datasets": 30 * k, "timeout": 1500 if tier == "quick" else 7200} for i in range(16)]
+    specs += [{"name": "cram%d" % i, "kind": "cram", "shard": i, "datasets": 6 * k, "timeout": 7200} for i in range(2)]
+    return specs
 
 
 def required(tier):
@@ -115,6 +117,9 @@ def required(tier):
         if t > 0:
             req["minq_%d_minus1" % t] = 1500
             req["minq_%d_zero" % t] = 1500
+    req["cram_runs_compared"] = 10
+    req["cram_records_compared"] = 20
+    req["cram_read_dicts_compared"] = 30
     if tier == "thorough":
         req = {n: v * k for n, v in req.items()}
         req.update({"phred_fn_cells_checked": 500000, "phred_fn_merged_cells": 80000, "phred_prog_rows_checked": 80000,
@@ -1289,7 +1294,69 @@ def run_dataset_case(tier, seed, shard, index, col, workname):
     return found
 
 
+
+def run_cram(tier, seed, spec, col):
+    """The same alignments as CRAM: mchap opens alignment files with the reference, so CRAM is valid input; the reads fed to
+    inference (and hence every record) must be identical to those from the BAM the CRAM was converted from (=/X CIGAR
+    operators come back as M, MD / NM are regenerated by the decoder)."""
+    import pysam
+
+    from mchap.io import extract_read_variants
+    from mchap.io.loci import Locus
+
+    for dI in range(spec["datasets"]):
+        rng = gen.rng_for(seed, ID, 700 + spec["shard"], dI)
+        root = env.workdir("c06-cram-%d-%d" % (spec["shard"], dI))
+        shutil.rmtree(root, ignore_errors=True)
+        ds = D.make_dataset(rng, root, n_samples=int(rng.integers(1, 4)), n_loci=int(rng.integers(2, 5)), ploidy=[2, 4], depth=(4, 12), contig_len=600,
+                            hostile=0.35, flags=True, paired=0.3, rgs_per_sample=(1, 2), samples_per_bam=int(rng.choice([1, 2])), mapq_values=(60, 30, 20))
+        crams = []
+        for bam in ds.bams:
+            cram = bam[:-4] + ".cram"
+            with pysam.AlignmentFile(bam) as src, pysam.AlignmentFile(cram, "wc", template=src, reference_filename=ds.fasta) as dst:
+                for r in src:
+                    dst.write(r)
+            pysam.index(cram)
+            crams.append(cram)
+        case = {"kind": "cram", "seed": seed, "shard": spec["shard"], "index": dI}
+        col.case("CRAM|%d|%d" % (spec["shard"], dI), nontrivial=True)
+        keep = [[], ["--keep-duplicate-reads"], ["--keep-qcfail-reads", "--keep-supplementary-reads"]][int(rng.integers(3))]
+        mq = str(int(rng.choice([0, 20, 21, 30])))
+        outs = []
+        for files in (ds.bams, crams):
+            args = ["assemble", "--bam"] + files + ["--reference", ds.fasta, "--variants", ds.vcf, "--targets", ds.bed, "--ploidy", "2", "--mapping-quality", mq,
+                                                      "--mcmc-steps", "60", "--mcmc-burn", "30", "--mcmc-seed", "5", "--report", "SNVDP"] + keep
+            out, exc = cli.run_inproc(args)
+            outs.append((out, exc))
+        col.count("cram_runs_compared")
+        if outs[0][1] is not None or outs[1][1] is not None:
+            if (outs[0][1] is None) != (outs[1][1] is None):
+                col.violation("cram-input-changes-result", "assemble on BAM raised %r, on the CRAM copies %r" % (outs[0][1], outs[1][1]), case)
+            else:
+                col.count("cram_runs_both_failed")
+        else:
+            a, b = cli.record_lines(outs[0][0]), cli.record_lines(outs[1][0])
+            col.count("cram_records_compared", len(a))
+            if a != b:
+                d = [(x[:200], y[:200]) for x, y in zip(a, b) if x != y][:1]
+                col.violation("cram-input-changes-result", "assemble records differ between BAM input and its CRAM copy (options %s, MAPQ %s): %s" % (keep, mq, d), case)
+        # function level: the read dictionaries themselves
+        for L in ds.loci:
+            loc = Locus(L["contig"], L["start"], L["stop"], L["name"], None, None).set_sequence(ds.fasta).set_variants(ds.vcf)
+            for bam, cram in zip(ds.bams, crams):
+                res = []
+                for path in (bam, cram):
+                    with pysam.AlignmentFile(path, reference_filename=ds.fasta) as af:
+                        d = extract_read_variants(loc, af, min_quality=int(mq), read_dicts=True)
+                    res.append({s: {q: ("".join(v[0]), [int(x) for x in v[1]]) for q, v in reads.items()} for s, reads in d.items()})
+                col.count("cram_read_dicts_compared")
+                if res[0] != res[1]:
+                    col.violation("cram-input-changes-result", "extract_read_variants(%s) differs between %s and its CRAM copy" % (L["name"], os.path.basename(bam)), case)
+        shutil.rmtree(root, ignore_errors=True)
+
 def run_shard(tier, seed, spec, col):
+    if spec.get("kind") == "cram":
+        return run_cram(tier, seed, spec, col)
     work = "c06-%s-%s" % (tier, spec["name"])
     try:
         for i in range(spec["datasets"]):
